@@ -39,8 +39,9 @@ theorem sendInv_send (s : S) (d : List Byte) (hs : SendInv s) : SendInv (send s 
         refine ⟨?_, fun h => by simp [h2 h], fun _ _ => rfl, fun _ => ⟨hc'.1, hw'⟩, (fun h => by simp_all), h6⟩
         simp [← hk, List.append_assoc]
       · refine ⟨by simp [← hk], fun h => by simp [h2 h], fun _ _ => rfl, fun _ => ⟨hc'.1, hw'⟩, (fun h => by simp_all), h6⟩
-      · refine ⟨by simpa using h1, fun h => by simp at h, ?_, h4, h5, h6⟩
-        intro _ hne; simp [hc'.2] at hne
+      · split
+        · refine ⟨by simp [← hk], fun h => by simp [h2 h], fun _ _ => rfl, fun _ => ⟨hc'.1, hw'⟩, (fun h => by simp_all), h6⟩
+        · exact ⟨h1, h2, h3, h4, h5, h6⟩
 
 theorem sendInv_enable (s : S) (hs : SendInv s) : SendInv (enable s).1 := by
   obtain ⟨h1, h2, h3, h4, h5, h6⟩ := hs
@@ -142,16 +143,26 @@ theorem enable_hist (s : S) : (enable s).1.hist = s.hist := by
 theorem disable_hist (s : S) : (disable s).1.hist = s.hist := by
   unfold disable; split; rfl; split <;> rfl
 
-theorem send_hist (s : S) (d : List Byte) :
-    (send s d).1.hist = s.hist ∨ (send s d).1.hist = s.hist ++ [.sendDrop d] := by
+theorem send_hist (s : S) (d : List Byte) : (send s d).1.hist = s.hist := by
   unfold send
-  split; exact .inl rfl
+  split; rfl
   simp only
-  split; exact .inl rfl
+  split; rfl
   split
-  · exact .inl rfl
-  · exact .inl rfl
-  · exact .inr rfl
+  · rfl
+  · rfl
+  · split <;> rfl
+
+/-- patches/C06-09: `send` never drops -/
+theorem send_drops (s : S) (d : List Byte) : (send s d).1.drops = s.drops := by
+  unfold send
+  split; rfl
+  simp only
+  split; rfl
+  split
+  · rfl
+  · rfl
+  · split <;> rfl
 
 /-! ### send-complete only with nothing outstanding -/
 
@@ -167,10 +178,7 @@ def CompInv (s : S) : Prop := SendInv s ∧ completeOk s.hist
 theorem compInv_stable : Stable CompInv := by
   refine Stable.ofRaw ?_ ?_ ?_ ?_
   · intro s d ⟨h1, h2⟩
-    refine ⟨sendInv_send s d h1, ?_⟩
-    rcases send_hist s d with h | h <;> rw [h]
-    · exact h2
-    · exact completeOk_append _ _ h2 (fun n hn => by cases hn)
+    exact ⟨sendInv_send s d h1, by rw [send_hist]; exact h2⟩
   · intro s ⟨h1, h2⟩; exact ⟨sendInv_enable s h1, by rw [enable_hist]; exact h2⟩
   · intro s ⟨h1, h2⟩; exact ⟨sendInv_disable s h1, by rw [disable_hist]; exact h2⟩
   · intro s ⟨h1, h2⟩; exact ⟨h1.expire, h2⟩
@@ -232,5 +240,141 @@ theorem compInv_frame : StepFrame CompInv (fun _ => True) where
 theorem init_compInv : CompInv init :=
   ⟨⟨rfl, fun _ => rfl, (fun h => by cases h), (fun h => by cases h), fun _ => rfl, fun _ => rfl⟩,
    (fun _ h => by cases h)⟩
+
+/-! ### progress: writable passes drain the queue through any finite fault schedule -/
+
+theorem popAt_length (site : Site) (l : List WEnt) (a : WAns) (q : List WEnt)
+    (h : popAt site l = some (a, q)) : q.length + 1 = l.length := by
+  induction l generalizing a q with
+  | nil => simp [popAt] at h
+  | cons e l ih =>
+      unfold popAt at h
+      split at h
+      · simp only [Option.some.injEq, Prod.mk.injEq] at h
+        rw [← h.2]; rfl
+      · split at h
+        · rename_i a' q' heq
+          simp only [Option.some.injEq, Prod.mk.injEq] at h
+          have := ih a' q' heq
+          rw [← h.2]; simp only [List.length_cons]; omega
+        · cases h
+
+/-- writable passes on a descriptor with nothing queued and no send-complete callback change neither
+the wire nor the queue -/
+theorem idle_wr (m : Nat) (s : S) (hq : s.sendQ = []) (hs : s.scb = none) :
+    (run s (List.replicate m .wr)).wire = s.wire ∧ (run s (List.replicate m .wr)).sendQ = [] := by
+  induction m generalizing s with
+  | zero => exact ⟨rfl, hq⟩
+  | succ m ih =>
+      simp only [List.replicate_succ, run, List.foldl_cons]
+      have hstep : (stepOk s .wr).wire = s.wire ∧ (stepOk s .wr).sendQ = [] ∧ (stepOk s .wr).scb = none := by
+        simp only [stepOk, Op.okIn, if_true, step]
+        split
+        · simp [onWrite, hq, hs, fire]
+        · exact ⟨rfl, hq, hs⟩
+      have := ih (stepOk s .wr) hstep.2.1 hstep.2.2
+      simp only [run] at this
+      rw [this.1, hstep.1]; exact ⟨rfl, this.2⟩
+
+theorem drains_wr (n : Nat) (s : S) (hn : s.wq.length ≤ n) (hw : s.wecb = none) (hs : s.scb = none)
+    (hm : s.wmax = 0) (ha : s.sendQ ≠ [] → s.writeArmed = true) :
+    (run s (List.replicate (n + 1) .wr)).wire = s.wire ++ s.sendQ ∧
+    (run s (List.replicate (n + 1) .wr)).sendQ = [] := by
+  induction n generalizing s with
+  | zero =>
+      simp only [List.replicate_succ, List.replicate_zero, run, List.foldl_cons, List.foldl_nil]
+      have hwq : s.wq = [] := List.eq_nil_of_length_eq_zero (by omega)
+      by_cases hq : s.sendQ = []
+      · have := idle_wr 1 s hq hs
+        simp only [List.replicate_succ, List.replicate_zero, run, List.foldl_cons, List.foldl_nil] at this
+        rw [this.1, hq]; exact ⟨by simp, this.2⟩
+      · simp [stepOk, Op.okIn, step, ha hq, onWrite, hq, popW, popAt, hwq, hm]
+  | succ n ih =>
+      rw [List.replicate_succ]
+      simp only [run, List.foldl_cons]
+      by_cases hq : s.sendQ = []
+      · have := idle_wr (n + 2) s hq hs
+        rw [List.replicate_succ] at this
+        simp only [run, List.foldl_cons] at this
+        rw [this.1, hq]; exact ⟨by simp, this.2⟩
+      · have harm := ha hq
+        cases hp : popAt .cb s.wq with
+        | none =>
+            have hst : stepOk s .wr = { s with wire := s.wire ++ s.sendQ, sendQ := [] } := by
+              simp [stepOk, Op.okIn, step, harm, onWrite, hq, popW, hp, hm]
+            rw [hst]
+            have := idle_wr (n + 1) { s with wire := s.wire ++ s.sendQ, sendQ := [] } rfl hs
+            simp only [run] at this
+            exact this
+        | some r =>
+            obtain ⟨a, q⟩ := r
+            have hl := popAt_length _ _ _ _ hp
+            cases a with
+            | accept k =>
+                have hst : stepOk s .wr = { s with wq := q, wire := s.wire ++ s.sendQ.take k, sendQ := s.sendQ.drop k } := by
+                  simp [stepOk, Op.okIn, step, harm, onWrite, hq, popW, hp]
+                rw [hst]
+                have := ih { s with wq := q, wire := s.wire ++ s.sendQ.take k, sendQ := s.sendQ.drop k }
+                  (by simp only; omega) hw hs hm (fun _ => harm)
+                simp only [run] at this
+                rw [this.1]
+                exact ⟨by simp [List.append_assoc], this.2⟩
+            | eagain =>
+                have hst : stepOk s .wr = { s with wq := q } := by
+                  simp [stepOk, Op.okIn, step, harm, onWrite, hq, popW, hp, hw, fire]
+                rw [hst]
+                have := ih { s with wq := q } (by simp only; omega) hw hs hm ha
+                simp only [run] at this
+                exact this
+            | err c =>
+                have hst : stepOk s .wr = { s with wq := q } := by
+                  simp [stepOk, Op.okIn, step, harm, onWrite, hq, popW, hp, hw, fire]
+                rw [hst]
+                have := ih { s with wq := q } (by simp only; omega) hw hs hm ha
+                simp only [run] at this
+                exact this
+
+/-! ### patches/C06-09: nothing is ever dropped -/
+
+def NoDrop (s : S) : Prop := s.drops = 0
+
+theorem enable_drops (s : S) : (enable s).1.drops = s.drops := by
+  unfold enable; split; rfl; split <;> rfl
+
+theorem disable_drops (s : S) : (disable s).1.drops = s.drops := by
+  unfold disable; split; rfl; split <;> rfl
+
+theorem initFd_drops (s : S) (n : Bool) (ev : Nat) : (initFd s n ev).1.drops = s.drops := by
+  unfold initFd; split; rfl; split; rfl; split <;> rfl
+
+theorem noDrop_stable : Stable NoDrop :=
+  Stable.ofRaw (fun s d hs => by unfold NoDrop; rw [send_drops]; exact hs)
+    (fun s hs => by unfold NoDrop; rw [enable_drops]; exact hs)
+    (fun s hs => by unfold NoDrop; rw [disable_drops]; exact hs) (fun _ hs => hs)
+
+theorem noDrop_rdFrame : RdFrame NoDrop where
+  fields _ _ _ _ _ _ _ hs := hs
+  ev _ _ _ hs := hs
+  eofMark _ hs := hs
+  closed s v hs := by
+    refine socketClosed_of noDrop_stable ?_ (fun _ _ _ hs => hs) s v hs
+    intro s hs
+    show (disable s).1.drops = 0
+    rw [disable_drops]; exact hs
+
+theorem noDrop_wrFrame : WrFrame NoDrop where
+  fields _ _ _ _ _ hs := hs
+  ev _ _ _ hs := hs
+
+theorem noDrop_frame : StepFrame NoDrop (fun _ => True) where
+  stable := noDrop_stable
+  onRead s hs _ := onRead_of_frame noDrop_stable noDrop_rdFrame s hs
+  onWrite s hs := onWrite_of_frame noDrop_stable noDrop_wrFrame s hs
+  initFd s n ev hs := by unfold NoDrop; rw [initFd_drops]; exact hs
+  connFlag _ hs := hs
+  setRcb _ _ _ _ hs := hs
+  cbs _ _ _ _ _ _ hs := hs
+  world _ _ _ _ _ hs := hs
+  feed _ _ hs := hs
 
 end Tbox.C06
